@@ -418,3 +418,97 @@ def c05_vartype(vi: int, where: int, n: int, s: str, b: bool, dflt: bool, vmode:
         # that field only fails: not called, error reported, sibling resolved
         return verdict(not got and bool(r.get("errors")) and r.get("data") is not None and r["data"].get(f) is None and any(name == "sib" for name, _ in log))
     return verdict(len(got) == 1 and eqv(got[0], exp) and not r.get("errors"))
+
+
+# ---- several arguments on one field / directive, any subset supplied, under every arguments-coercer configuration -------------
+from tartiflette.resolver.default import sync_arguments_coercer, gather_arguments_coercer  # noqa: E402
+
+ARGS_M = "a: Int, b: String, c: Int = 3, d: Boolean, e: Int! = 5"
+SDL_M = """
+directive @dm(%s) on FIELD
+type Query { multi(%s): String  multi_r(%s): String  sib: Int }
+""" % (ARGS_M, ARGS_M, ARGS_M)
+MODEL_M = model_from_sdl(SDL_M)
+MNAMES = ["a", "b", "c", "d", "e"]
+MTYPES = {"a": "Int", "b": "String", "c": "Int", "d": "Boolean", "e": "Int!"}
+
+
+def _make_m(name, engine_wide, resolver_level, directive_level):
+    class DM:
+        async def on_field_execution(self, directive_args, next_resolver, parent, args, ctx, info):
+            DLOG.append(directive_args)
+            return await next_resolver(parent, args, ctx, info)
+    Directive("dm", schema_name=name, **({"arguments_coercer": directive_level} if directive_level else {}))(DM())
+    Resolver("Query.multi", schema_name=name)(_probe)
+    Resolver("Query.multi_r", schema_name=name, **({"arguments_coercer": resolver_level} if resolver_level else {}))(_probe)
+    Resolver("Query.sib", schema_name=name)(_sib)
+    kw = {"custom_default_arguments_coercer": engine_wide} if engine_wide else {}
+    return build(SDL_M, name, query_cache_decorator=None, **kw)
+
+
+ENGS_M = [_make_m("c05m_g", None, sync_arguments_coercer, sync_arguments_coercer),                       # documented default (gather), sync per resolver/directive
+          _make_m("c05m_s", sync_arguments_coercer, gather_arguments_coercer, gather_arguments_coercer),   # sync engine-wide, gather per resolver/directive
+          _make_m("c05m_gg", gather_arguments_coercer, None, None)]
+for _e in ENGS_M:
+    env.run(_e.execute("{ sib }"))
+M_SHARDS = [{"eng": e, "site": s, "mask": m} for e in range(3) for s in ("multi", "multi_r", "dm") for m in range(32)]
+M_QUICK = [i for i, s in enumerate(M_SHARDS) if s["mask"] in (2, 4, 9, 16, 21, 31, 0) and not (s["eng"] == 2 and s["site"] != "multi")]
+
+
+@obligation(tier="quick", timeout=200, shards=M_SHARDS, quick_shards=M_QUICK,
+            samples=[{"n": 5, "s": "x", "n2": 7, "b": True, "n3": 1, "mode": 0}, {"n": 2**31, "s": "", "n2": -1, "b": False, "n3": 0, "mode": 1}, {"n": 0, "s": "q", "n2": 0, "b": False, "n3": 9, "mode": 2}],
+            symbolic=["n, n2, n3: int (unbounded)", "s: str", "b: bool — the values of the supplied arguments (variable modes)"],
+            selectors=["mode: literals / variables with values / variables without runtime value", "shard: arguments-coercer configuration (engine-wide, per resolver, per directive: gather or sync), "
+                       "call site (field, field with its own coercer, directive), subset of the 5 declared arguments that is supplied (all 32)"],
+            bounds="5 declared arguments (2 with defaults, 1 non-null), every subset supplied, 3 engines x 3 sites",
+            note="every supplied argument arrives under ITS OWN name with its coerced value, omitted ones are absent or defaulted — whichever documented arguments coercer (gather / sync) is configured at engine, resolver or directive level")
+def c05_multi(n: int, s: str, n2: int, b: bool, n3: int, mode: int) -> bool:
+    """
+    post: _
+    """
+    sh = shard()
+    mode = pick(mode, 3)
+    eng = ENGS_M[sh["eng"]]; site = sh["site"]; mask = sh["mask"]
+    supplied = [a for i, a in enumerate(MNAMES) if mask >> i & 1]
+    with NoTracing():
+        if mode == 0:
+            lits = {"a": "1000001", "b": "\"S0\"", "c": "1000002", "d": "true", "e": "1000003"}
+            argt = ", ".join("%s: %s" % (a, lits[a]) for a in supplied)
+            head = ""
+        else:
+            # an unprovided variable at the non-null position `e` needs a nullable variable type to be unprovided: it is declared Int! and then must be provided
+            argt = ", ".join("%s: $%s" % (a, a) for a in supplied)
+            head = "query Q(%s) " % ", ".join("$%s: %s" % (a, MTYPES[a]) for a in supplied) if supplied else ""
+        argp = "(%s)" % argt if argt else ""
+        q = "%s{ %s%s sib }" % (head, site, argp) if site != "dm" else "%s{ sib @dm%s }" % (head, argp)
+        ast = gqlfront.parse(q)
+    variables = {}
+    if mode == 1:
+        vals = {"a": n, "b": s, "c": n2, "d": b, "e": n3}
+        variables = {a: vals[a] for a in supplied}
+    elif mode == 2 and "e" in supplied:
+        variables = {"e": n3}
+    del LOG[:]; del DLOG[:]
+    ok, r = safe(lambda: env.run(eng.execute(q, variables=dict(variables))))
+    log = list(LOG); dlog = list(DLOG)
+    observe(q, variables, r, log, dlog)
+    if not ok:
+        return verdict(False)
+    op = ast["definitions"][0]
+    vardefs = [(vd["variable"]["name"]["value"], tref_of(vd["type"]), vd["defaultValue"]) for vd in op["variableDefinitions"] or []]
+    try:
+        cv = C.coerce_variables(MODEL_M, vardefs, variables)
+    except C.Bad:
+        return verdict(r.get("data") is None and bool(r.get("errors")) and not log and not dlog)
+    sel = op["selectionSet"]["selections"][0]
+    if site == "dm":
+        defs = MODEL_M["directives"]["dm"]["args"]; nodes = sel["directives"][0]["arguments"]
+    else:
+        defs = MODEL_M["types"]["Query"]["fields"][site]["args"]; nodes = sel["arguments"]
+    exp = C.coerce_arguments(MODEL_M, defs, nodes, cv)
+    if r.get("errors"):
+        return verdict(False)
+    if site == "dm":
+        return verdict(len(dlog) == 1 and eqv(dlog[0], exp))
+    got = [a for name, a in log if name == site]
+    return verdict(len(got) == 1 and eqv(got[0], exp) and any(name == "sib" for name, _ in log))
